@@ -169,12 +169,11 @@ size_t g_qs_s; /* S: offset in Q at which the search for the next pair starts */
 size_t g_qw;   /* arbitrary position: "every skipped byte is '&'" / "nothing but '&' is left" */
 #define QS_OFF(q, p) ((size_t)(POFF(p) - POFF((q).ptr)))
 #define QS_IN(q, p) (__CPROVER_same_object((p), (q).ptr) && POFF(p) >= POFF((q).ptr) && QS_OFF(q, p) <= (q).len)
-/* length of the pair {key, value}: from the start of the key to the end of the value */
-#ifdef QS_VARIANT_SHAPE
+/* length of the pair {key, value}: the key, plus '=' and the value in the "key=value" shape.  In both shapes this is the
+ * distance from the start of the key to the END OF THE VALUE (the contract ensures one of the two shapes); it is written
+ * shape-wise because the SAT back end is slow on offset differences that have to be cancelled against the code's own
+ * arithmetic (350 s instead of 75 s). */
 #define QS_PAIR_LEN(pm) ((pm)->value.ptr == (pm)->key.ptr + (pm)->key.len ? (pm)->key.len : (pm)->key.len + 1 + (pm)->value.len)
-#else
-#define QS_PAIR_LEN(pm) ((size_t)(POFF((pm)->value.ptr) - POFF((pm)->key.ptr)) + (pm)->value.len)
-#endif
 /* the two shapes of a pair: "key=value" / "key" */
 #define QS_HAS_EQ(pm) ((pm)->value.ptr == (pm)->key.ptr + (pm)->key.len + 1)
 #define QS_NO_EQ(pm) ((pm)->value.ptr == (pm)->key.ptr + (pm)->key.len && (pm)->value.len == 0)
@@ -190,7 +189,6 @@ __CPROVER_requires(param->value.ptr != NULL ==>
                    (QS_HAS_EQ(param) || QS_NO_EQ(param)))
 __CPROVER_requires(g_qs_s == (param->value.ptr == NULL ? (size_t)0 : QS_OFF(query_string, param->value.ptr) + param->value.len + 1))
 __CPROVER_assigns(*param, g_mm)
-#if !defined(QS_PART) || QS_PART == 1
 /* ---- nothing left: param untouched, and from S on there is nothing but '&' (or S is behind the end) */
 __CPROVER_ensures(!RET ==> param->key.ptr == OLD(param->key.ptr) && param->key.len == OLD(param->key.len) &&
                            param->value.ptr == OLD(param->value.ptr) && param->value.len == OLD(param->value.len))
@@ -198,8 +196,6 @@ __CPROVER_ensures(!RET && g_qs_s <= g_qw && g_qw < query_string.len ==> query_st
 /* ---- a pair: it starts inside Q at or after S, and only empty pieces were skipped */
 __CPROVER_ensures(RET ==> QS_IN(query_string, param->key.ptr) && QS_OFF(query_string, param->key.ptr) >= g_qs_s)
 __CPROVER_ensures(RET && g_qs_s <= g_qw && g_qw < QS_OFF(query_string, param->key.ptr) ==> query_string.ptr[g_qw] == '&')
-#endif
-#if !defined(QS_PART) || QS_PART == 2
 /* ---- the pair: sub-views of Q, non-empty */
 __CPROVER_ensures(RET ==> QS_IN(query_string, param->key.ptr) && QS_IN(query_string, param->value.ptr) &&
                           POFF(param->value.ptr) >= POFF(param->key.ptr) && QS_PAIR_LEN(param) > 0 &&
@@ -212,7 +208,6 @@ __CPROVER_ensures(RET && QS_OFF(query_string, param->key.ptr) + QS_PAIR_LEN(para
 __CPROVER_ensures(RET ==> param->key.len <= QS_PAIR_LEN(param) && (g_j < param->key.len ==> param->key.ptr[g_j] != '='))
 __CPROVER_ensures(RET ==> (QS_HAS_EQ(param) && param->key.len < QS_PAIR_LEN(param) && param->key.ptr[param->key.len] == '=') ||
                           (QS_NO_EQ(param) && param->key.len == QS_PAIR_LEN(param)))
-#endif
 ;
 
 /* ================================================================== ghost log of the delimiter searches (parser units)
